@@ -60,11 +60,13 @@ def cpython_inlining_bug_shape(tree):
     for node, path in scope.walk(tree):
         if node[0] != "class":
             continue
-        kids = [c for c in node[2] if c[0] in ("lambda", "comp")]
-        for t in kids:
+        # the lowered class body is a lambda: a comprehension directly in it is inlined into that
+        # lambda, and ANY other scope below the class (nested classes included: their loaders are
+        # nested lambdas) that mentions the name may hit the interpreter bug
+        for t in node[2]:
             if t[0] != "comp" or t[1] not in ("target", "target_tuple"):
                 continue
-            for c in kids:
+            for c in node[2]:
                 if c is not t and any(sub[1] != "none" for sub, _ in scope.walk(c)):
                     return True
     return False
